@@ -71,3 +71,9 @@ def run_rb(run, exe, trace_mod="TraceRingBuf", trace_cfg="TraceRingBuf.cfg", cfg
 def run(run):
     exe = build_vrt(run, "rb_drv", "rb_drv.c", ["librfn/ringbuf.c"])
     run_rb(run, exe)
+    # release-style build (NDEBUG, unsigned char, -O2): random programs and schedules again
+    exe2 = build_vrt(run, "rb_drv_alt", "rb_drv.c", ["librfn/ringbuf.c"], extra_flags=ALT_FLAGS)
+    n = 2000 if run.thorough() else 400
+    gen = "Gen %d %d 0\nGen %d %d 1\nLate 3 600\nFill 300 290\n" % (run.seed * 10 + 5, n, run.seed * 10 + 6, n)
+    tr = exec_script(run, exe2, [], gen, run.path("alt-random.ndjson"), "release-build-schedules")
+    check_trace(run, "release-build-schedules", "TraceRingBuf", "TraceRingBuf.cfg", tr, loose=LOOSE)
